@@ -53,6 +53,10 @@ type Config struct {
 	// Run executes the body under vrt.Run with the given prefix and returns the
 	// execution and the caller's judgement.
 	Body func() Result
+	// Setup, when set, runs before every execution outside the controlled
+	// region (no scheduling or environment points): it rebuilds the state the
+	// body works on, so that every execution starts from a fresh instance.
+	Setup func()
 	// Shard/NShards split the first-level subtrees between processes.
 	Shard, NShards int
 	// MaxExecs caps the exploration (0 = none); Stop is polled between executions.
@@ -73,6 +77,9 @@ func Explore(cfg Config) *Stats {
 	}
 	run := func(prefix []int, trace bool) (*vrt.Exec, Result) {
 		var res Result
+		if cfg.Setup != nil {
+			cfg.Setup()
+		}
 		x := vrt.Run(prefix, vrt.Options{Horizon: cfg.Horizon, EnvChoices: cfg.EnvChoices, KeepTrace: trace}, func() { res = cfg.Body() })
 		switch {
 		case strings.HasPrefix(x.Err, "replay divergence"):
